@@ -7,3 +7,4 @@ EXPLANATION = ("Bounded runtime contracts at the public interface (ConfigLoader.
 ASSUMPTIONS = ["the per-event densities amp(data) returned by the amplitude model are taken as given (amplitude-level properties are separate)"]
 
 from vt.contracts import iface_nll  # noqa: F401,E402
+from vt.contracts import derivs  # noqa: F401,E402
